@@ -13,7 +13,8 @@ RULE = (
     "every base pointer of depth<=3 over 10 tokens (built by parsing, by from_parts, or as the result of a previous application) (names, indices 0/1/2/10/12, '~', 'a/b', non-ASCII) x every relative "
     "pointer text: steps 0..depth+1, offset in {none,+-1,+-2,+-10,+-12}, suffix in {'', '#', five pointers with escapes}, "
     "plus the refused spellings (leading zeros, +0/-0, sign without digits). Offsets are generated only where the token "
-    "they adjust is a canonical array index. state = distinct (base, relative text); non-trivial = reference defines a result"
+    "they adjust is a canonical array index. BIG: 4 bases x 9 offsets of 16-20 digits (sums at, just below and beyond 2**53-1, and far "
+    "below zero) x steps 0/1 x 3 suffixes. state = distinct (base, relative text); non-trivial = reference defines a result"
 )
 ASSUMPTIONS = [
     "reference model mc/ref/rptr.py rel_parse/rel_apply, self-tested on the draft's examples",
@@ -38,12 +39,26 @@ def bounds(tier, seed):
 
 
 def plan(tier, seed):
-    shards = [("D", 0, None), ("D", 1, None)]
+    shards = [("D", 0, None), ("D", 1, None), ("BIG",)]
     for a in range(len(TOKENS)):
         shards.append(("D", 2, a))
         for b in range(len(TOKENS)):
             shards.append(("D3", a, b))
     return shards
+
+
+# offsets "of any number of digits": results at and beyond the index limit of pointer *texts* (2**53 - 1)
+BIG_BASES = [["a", "1"], ["9007199254740991"], ["a", "9007199254740990"], ["5"]]
+BIG_OFFSETS = ["+9007199254740990", "+9007199254740991", "+9007199254740992", "+99999999999999999999", "-9007199254740991",
+               "-9007199254740985", "+1", "+2", "-99999999999999999999"]
+
+
+def big_cases():
+    for base in BIG_BASES:
+        for steps in ("0", "1"):
+            for off in BIG_OFFSETS:
+                for suf in ("", "/a", "/0"):
+                    yield base, steps + off + suf
 
 
 def rel_texts():
@@ -56,6 +71,10 @@ def rel_texts():
 
 
 def run_shard(shard, acc):
+    if shard[0] == "BIG":
+        for base, text in big_cases():
+            _check(base, text, acc)
+        return
     if shard[0] == "D":
         _, depth, a = shard
         if depth == 0:
@@ -146,7 +165,10 @@ def _check(base, text, acc, record=True):
                 bad = ("refused", exp, obs)
             elif exp[0] == "ptr":
                 want = rptr.encode(exp[1])
-                if str(res) != want or not (res == JSONPointer(want)):
+                # parsing a pointer text with an index beyond the limit is a documented construction-time error, so
+                # such a result is compared by its text only
+                big = any((rptr.canonical_index(t) or 0) > 2 ** 53 - 1 for t in exp[1])
+                if str(res) != want or not (big or res == JSONPointer(want)):
                     bad = ("result", want, str(res))
             else:  # key marker: observe through resolution
                 doc, _leaf = _synth(exp[1])
